@@ -25,8 +25,9 @@ import (
 
 func init() {
 	core.Register(&core.Check{
-		ID:    "C09",
-		Level: "model_checking",
+		ID:             "C09",
+		ThoroughBudget: 45 * time.Minute,
+		Level:          "model_checking",
 		Rule: "each scenario = 2-3 simulated csvq processes (goroutines running the real lib/file handler code, or the real query stack, on one tmpfs directory; flock is per open file description so they conflict like processes); " +
 			"ALL interleavings of their file-system steps, retry waits and wait-timeouts are explored by DFS with a visited set over global states (directory contents + each process's observation log); " +
 			"non-trivial state = at least two processes have started and not finished; invariants checked in every state, end-to-end oracles in every terminal state",
